@@ -585,7 +585,8 @@ func (r *runner) explore(h *History, b bounds, wi, wn int, depth0 *int) {
 		if l == nil || !ok {
 			continue
 		}
-		if (o.Kind == "range" || o.Kind == "all") && nc == 0 && len(child.Ops) <= 4 {
+		// (the fault variants of a compaction are run in the plain searches; the rich slices only add table shapes)
+		if (o.Kind == "range" || o.Kind == "all") && nc == 0 && len(child.Ops) <= 4 && !b.rich {
 			r.faultVariants(child)
 		}
 		r.trans++
